@@ -22,7 +22,8 @@ func init() {
 			"(R4) every response channel has capacity >= 1; " +
 			"(R5) every call has a time-out arm on RequestTimeout() returning ErrTimeout and a *Reject arm returning a RejectError built from the message's Code and Message; " +
 			"(R6) the pending list is touched only by the requests goroutine; " +
-			"(R7) in GetOutputs outputs[k] is filled from tx.TxOut[outpoints[k].Index] for the same k, and no error is wrapped on a path where it is provably nil.",
+			"(R7) in GetOutputs outputs[k] is filled from tx.TxOut[outpoints[k].Index] for the same k, and no error is wrapped on a path where it is provably nil; " +
+			"(R8) the requests goroutine consumes queued registrations before it routes a response; (R9) every delivery removes the request from the pending list; (R10) every call registers its request before it sends the message.",
 		NotDecided:  "correlation under all permutations/delays of responses and concurrent calls with equal keys (dynamic); the server's behaviour.",
 		Assumptions: []string{"the response router runs on a single goroutine (R6 checks ownership of the list)"},
 		Tech:        "table agreement between caller literals and router guards (dominating-edge contexts on SSA), path typestate for registered/answered/removed, constant provenance, who-may-access",
@@ -54,23 +55,23 @@ func dominatingEdges(in ssa.Instruction) []domEdge {
 }
 
 type syncCall struct {
-	Fn       *ssa.Function
-	Req      *ssa.Alloc
-	Typ      int64
-	TypName  string
-	Key      string // "hash", "height", ""
-	Accepts  []string
-	AddReq   *ssa.Call
-	Chan     ssa.Value
-	Select   *ssa.Select
+	Fn      *ssa.Function
+	Req     *ssa.Alloc
+	Typ     int64
+	TypName string
+	Key     string // "hash", "height", ""
+	Accepts []string
+	AddReq  *ssa.Call
+	Chan    ssa.Value
+	Select  *ssa.Select
 }
 
 type delivery struct {
-	Send    *ssa.Send
-	Payload string
-	MsgType int64 // -1 if none
-	ReqTyp  int64 // -1 if none, -2 if compared with msg.MessageType (dynamic)
-	Key     string
+	Send       *ssa.Send
+	Payload    string
+	MsgType    int64 // -1 if none
+	ReqTyp     int64 // -1 if none, -2 if compared with msg.MessageType (dynamic)
+	Key        string
 	HashNonNil bool // dominated by msg.Hash != nil
 }
 
@@ -394,6 +395,8 @@ func runC16(c *Check) {
 		c.Decide(okAll, "R2", fk+"#request-answered-or-removed", sc.AddReq.Pos(), "path-typestate", wit,
 			"every return after registration follows the response or a removeRequest", "a return path leaves the registered request in the pending list (e.g. when sending fails): it captures the response of the next call with the same key")
 
+		c.ruleRegisterBeforeSend(sc)
+
 		// ---- R3 no write after publication
 		okW := true
 		for _, ref := range *sc.Req.Referrers() {
@@ -458,6 +461,8 @@ func runC16(c *Check) {
 		c.Decide(okRej, "R5", fk+"#reject-arm", sc.Select.Pos(), "provenance", nil,
 			"a *Reject response is returned as RejectError(Code, Message)", "a rejection is not surfaced as a reject error carrying the server's code and message")
 	}
+
+	c.ruleRouterPairing(fRequests, fResp)
 
 	// ---- R6 ownership of the pending list
 	allowed := map[string]bool{"client.(*RemoteClient).runRequests": true, "client.(*RemoteClient).handleRequestResponse": true}
